@@ -1,10 +1,106 @@
 import TwigModel.Proto
+import TwigModel.Codec
 open Lean
 namespace Twig.Ops
+open Twig.Codec
 
-/-- driver ops of the Codec area (see the module TwigModel.Codec); `none` = not one of ours -/
+/-- timestamps travel as decimal strings (JSON numbers would lose precision on the Go side) -/
+def getI64 (j : Json) (k : String) : Except String Int64 := do
+  let s ← Proto.getStr j k
+  match s.toInt? with
+  | some i =>
+    if -9223372036854775808 ≤ i ∧ i ≤ 9223372036854775807 then pure (Int64.ofInt i)
+    else throw s!"{k} out of int64 range"
+  | none => throw s!"bad integer in {k}"
+
+def i64Json (t : Int64) : Json := Json.str (toString t.toInt)
+
+def decodeErrName : DecodeErr → String
+  | .empty => "empty" | .badVersion => "bad-version" | .name => "name" | .source => "source"
+  | .lastModified => "last-modified" | .compileTime => "compile-time"
+  | .astLength => "ast-length" | .astData => "ast-data"
+
+/-- transport only (not part of the model): FNV-1a 64 so that large decoded fields need not travel back -/
+def fnv64 (bs : Bytes) : UInt64 :=
+  bs.foldl (fun h c => (h ^^^ c.toUInt64) * 1099511628211) 14695981039346656037
+
+def fieldJson (digest : Bool) (bs : Bytes) : Json :=
+  if digest then Json.str s!"{bs.length}:{(fnv64 bs).toNat}" else Proto.hex bs
+
+def compiledFields (digest : Bool) (c : Compiled) : List (String × Json) :=
+  [("name", fieldJson digest c.name), ("source", fieldJson digest c.source), ("lm", i64Json c.lastModified),
+   ("ct", i64Json c.compileTime), ("ast", fieldJson digest c.ast)]
+
+/-- answer of `codec_decode` for one input:
+    class = "ok" | "err"; bin = "ok" | <binary error kind>;
+    gob = "not-consulted" | "accept-empty" | "reject" (GobFacts, first byte 0x01) | "opaque" (first byte ≠ 0x01:
+    the model does not say what encoding/gob does; `class` is then the answer *if gob rejects*);
+    alloc = bytes the binary decoder passes to make() on this input (allocBin). -/
+def decodeAnswer (bs : Bytes) (digest : Bool := false) (fb : Bool := gobFallbackOnV1) : Json :=
+  let bin := decodeBin bs
+  let binS := match bin with | .ok _ => "ok" | .error e => decodeErrName e
+  let gobS : String :=
+    match bin, bs with
+    | .ok _, _ => "not-consulted"
+    | .error _, [] => "not-consulted"
+    | .error _, 1 :: _ => if fb then (match gobModel bs with | some _ => "accept-empty" | none => "reject") else "not-consulted"
+    | .error _, _ => "opaque"
+  let allocN : Nat := allocBin lengthCheckedBeforeAlloc bs
+  match decodeFor fb gobModel bs with
+  | .ok c => Proto.ok ([("class", Json.str "ok"), ("bin", Json.str binS), ("gob", Json.str gobS), ("alloc", Json.num allocN)] ++ compiledFields digest c)
+  | .error e => Proto.ok [("class", Json.str "err"), ("err", Json.str (decodeErrName e)), ("bin", Json.str binS), ("gob", Json.str gobS), ("alloc", Json.num allocN)]
+
+/-- optional request field "fallback_v1" overrides the FACT `gobFallbackOnV1` (used to try a repaired tree) -/
+def fbOf (j : Json) : Bool := (Proto.getBool j "fallback_v1").toOption.getD gobFallbackOnV1
+
+/-- ops:
+    codec_facts {}                                                   → {gob_fallback_on_v1, length_checked_before_alloc: bool}
+    codec_encode {name, source, ast: hex, lm, ct: decimal strings}  → {out: hex, fits: bool}
+    codec_decode {data: hex}                                         → decodeAnswer
+    codec_decode_batch {datas: [hex]}                                → {results: [decodeAnswer]}
+    codec_variants {data: hex, cuts: [k], muts: [[pos, byte]], junk: hex, digest: bool}
+        → {results: [decodeAnswer of data[:k] for each cut, of data with data[pos]=byte for each mut, of data++junk
+           if junk is non-empty]}; with digest=true decoded fields are returned as "<length>:<fnv1a-64>"
+    codec_truncations {data: hex}                                    → {results: [decodeAnswer of every strict prefix, by length]} -/
 def codecOps (op : String) (j : Json) : Option (Except String Json) :=
   match op with
+  | "codec_encode" => some do
+      let name ← Proto.getBytes j "name"
+      let source ← Proto.getBytes j "source"
+      let ast ← Proto.getBytes j "ast"
+      let lm ← getI64 j "lm"
+      let ct ← getI64 j "ct"
+      let c : Compiled := ⟨name, source, lm, ct, ast⟩
+      pure (Proto.ok [("out", Proto.hex (encode c)), ("fits", Json.bool (decide c.fits))])
+  | "codec_facts" => some (pure (Proto.ok [("gob_fallback_on_v1", Json.bool gobFallbackOnV1),
+      ("length_checked_before_alloc", Json.bool lengthCheckedBeforeAlloc)]))
+  | "codec_decode" => some do
+      let d ← Proto.getBytes j "data"
+      pure (decodeAnswer d false (fbOf j))
+  | "codec_decode_batch" => some do
+      let ds ← Proto.getArr j "datas"
+      let rs ← ds.mapM fun d => do let bs ← Proto.asBytes d; pure (decodeAnswer bs false (fbOf j))
+      pure (Proto.ok [("results", Json.arr rs)])
+  | "codec_variants" => some do
+      let d ← Proto.getBytes j "data"
+      let cuts ← Proto.getArr j "cuts"
+      let muts ← Proto.getArr j "muts"
+      let junk ← Proto.getBytes j "junk"
+      let digest := (Proto.getBool j "digest").toOption.getD false
+      let r1 ← cuts.mapM fun c => do let k ← c.getNat?; pure (decodeAnswer (d.take k) digest (fbOf j))
+      let r2 ← muts.mapM fun m => do
+        let a ← m.getArr?
+        match a with
+        | #[p, v] => do
+          let pos ← p.getNat?; let val ← v.getNat?
+          pure (decodeAnswer (d.set pos val.toUInt8) digest (fbOf j))
+        | _ => throw "mut must be [pos, byte]"
+      let r3 := if junk.isEmpty then #[] else #[decodeAnswer (d ++ junk) digest (fbOf j)]
+      pure (Proto.ok [("results", Json.arr (r1 ++ r2 ++ r3))])
+  | "codec_truncations" => some do
+      let d ← Proto.getBytes j "data"
+      let rs := (List.range d.length).map fun k => decodeAnswer (d.take k) false (fbOf j)
+      pure (Proto.ok [("results", Json.arr rs.toArray)])
   | _ => none
 
 end Twig.Ops
